@@ -71,13 +71,8 @@ theorem c05_preimage_injective {e : Entry} {r : Rec} {e' : Entry} {r' : Rec} (hw
 
 /-- … and depends on nothing else (version, digest, record index/epoch are not hashed) -/
 theorem c05_preimage_congr {e : Entry} {r : Rec} {e' : Entry} {r' : Rec} (h : SemEq e r e' r') :
-    preimage e r = preimage e' r' := by
-  obtain ⟨h1, h2, h3, h4, h5, h6, h7, h8, h9, h10, h11, h12, h13, h14, h15⟩ := h
-  cases e; cases e'; cases r; cases r'
-  simp only at h1 h2 h3 h4 h5 h6 h7 h8 h9 h10 h11 h12 h13 h14 h15
-  subst h1 h2 h3 h4 h5 h6 h7 h8 h9 h10 h11 h12 h13 h14 h15
-  rw [preimage, preimage, c05_layout_v1]
-  rfl
+    preimage e r = preimage e' r' :=
+  preimageOf_congr h digestItems items_ok
 
 /-- **digest binds or collision** -/
 theorem c05_digest_binds (H : Bytes → Dig) {e : Entry} {r : Rec} {e' : Entry} {r' : Rec}
@@ -94,6 +89,48 @@ theorem c05_single_field_digest (H : Bytes → Dig) {e : Entry} {r : Rec} {e' : 
   by_cases hd : digest H e r = digest H e' r'
   · exact Or.inr ⟨c05_single_field hw hw' f hf hne, hd⟩
   · exact Or.inl hd
+
+/-! ### any admissible layout is injective; every construction site of a Record -/
+
+/-- a digest layout is admissible when every write has the kind of its field (fixed-width integers,
+    fixed 32-byte arrays, one-byte setting/flag with distinct flag bytes, u64-length-prefixed byte
+    strings) and every one of the fifteen semantic fields is written -/
+def LayoutOK (items : List Item) : Prop :=
+  (∀ it ∈ items, itemOK it = true) ∧ (∀ f ∈ hashedFlds, ∃ it ∈ items, itemFld it = some f)
+
+/-- ANY admissible layout — whatever the order, whatever extra tags — is injective exactly up to the
+    hashed fields -/
+theorem c05_layout_injective (items : List Item) (h : LayoutOK items)
+    {e : Entry} {r : Rec} {e' : Entry} {r' : Rec} (hw : WF e r) (hw' : WF e' r') :
+    preimageOf items e r = preimageOf items e' r' ↔ SemEq e r e' r' :=
+  ⟨fun hp => semEq_of_valEq hw hw' (fun f hf => preimageOf_field hw hw' items h.1 hp f (h.2 f hf)),
+   fun hs => preimageOf_congr hs items h.1⟩
+
+theorem c05_extracted_layout_ok : LayoutOK digestItems := ⟨items_ok, items_cover⟩
+
+def recFlds : List Fld := [.rID, .rIndex, .rEpoch, .rSetting, .rFromUID, .rClientMsgNo, .rTimestamp, .rSyncOnce, .rPayload]
+
+/-- a construction site sets each of the nine record fields exactly once -/
+def siteComplete (m : List (Fld × String)) : Bool :=
+  recFlds.all (fun f => (m.filter (fun p => p.1 == f)).length == 1) && m.length == 9
+
+theorem c05_record_sites :
+    recordSites.map (fun s => (s.1, s.2.1)) =
+      [("pkg/channel/proposal.go", "DeriveProposalEntries"),
+       ("pkg/db/message/proposal_manifest.go", "deriveDurableProposalEntries"),
+       ("pkg/db/message/proposal_manifest.go", "verifyBackupRowIdentity")] ∧
+    (∀ s ∈ recordSites, siteComplete s.2.2 = true) ∧
+    recordSites.map (fun s => s.2.2) =
+      [[(.rID, "record.ID"), (.rIndex, "record.Index"), (.rEpoch, "record.Epoch"), (.rSetting, "record.Setting"),
+        (.rFromUID, "record.FromUID"), (.rClientMsgNo, "record.ClientMsgNo"), (.rTimestamp, "record.ServerTimestampMS"),
+        (.rSyncOnce, "record.SyncOnce"), (.rPayload, "record.Payload")],
+       [(.rID, "row.MessageID"), (.rIndex, "row.MessageSeq"), (.rEpoch, "records[index].Epoch"), (.rSetting, "row.Setting"),
+        (.rFromUID, "row.FromUID"), (.rClientMsgNo, "row.ClientMsgNo"), (.rTimestamp, "row.ServerTimestampMS"),
+        (.rSyncOnce, "row.FramerFlags&4 != 0"), (.rPayload, "row.Payload")],
+       [(.rID, "row.MessageID"), (.rIndex, "row.MessageSeq"), (.rEpoch, "entry.ChannelEpoch"), (.rSetting, "row.Setting"),
+        (.rFromUID, "row.FromUID"), (.rClientMsgNo, "row.ClientMsgNo"), (.rTimestamp, "row.ServerTimestampMS"),
+        (.rSyncOnce, "row.FramerFlags&4 != 0"), (.rPayload, "row.Payload")]] ∧
+    entryLiteralsOutside = 0 := by decide
 
 /-! ### VerifyEntry -/
 
@@ -132,9 +169,8 @@ theorem c05_verify_rejects_other (H : Bytes → Dig) {e : Entry} {r r' : Rec} (h
 
 /-! ### Derive: sealed content verifies, and the chain binds the prefix -/
 
-theorem preimage_dig (e : Entry) (d : Dig) (r : Rec) : preimage { e with dig := d } r = preimage e r := by
-  rw [preimage, preimage, c05_layout_v1]
-  rfl
+theorem preimage_dig (e : Entry) (d : Dig) (r : Rec) : preimage { e with dig := d } r = preimage e r :=
+  c05_preimage_congr ⟨rfl, rfl, rfl, rfl, rfl, rfl, rfl, rfl, rfl, rfl, rfl, rfl, rfl, rfl, rfl⟩
 
 /-- pointwise relation between the derived entries and their records -/
 inductive All2 (P : Entry → Rec → Prop) : List Entry → List Rec → Prop
@@ -478,6 +514,17 @@ example : preimage exEntry exRec ≠ preimage exEntry { exRec with frm := [97, 9
 -- c05_preimage_injective / c05_preimage_congr / c05_digest_binds: equal preimages exist (unhashed fields differ)
 example : preimage exEntry exRec = preimage { exEntry with version := 9 } { exRec with index := 1 } :=
   c05_preimage_congr ⟨rfl, rfl, rfl, rfl, rfl, rfl, rfl, rfl, rfl, rfl, rfl, rfl, rfl, rfl, rfl⟩
+-- c05_layout_injective / c05_extracted_layout_ok
+-- a reordered (still admissible) layout is injective too: the theorem does not depend on the order
+example : LayoutOK digestItems.reverse := by
+  refine ⟨fun it h => items_ok it (List.mem_reverse.mp h), fun f hf => ?_⟩
+  obtain ⟨it, h1, h2⟩ := items_cover f hf
+  exact ⟨it, List.mem_reverse.mpr h1, h2⟩
+-- a layout that drops a field, or the length prefix of a byte string, is NOT admissible
+example : ¬ LayoutOK (digestItems.filter (· ≠ .u64 .eFence)) := by
+  intro h; obtain ⟨it, h1, h2⟩ := h.2 .eFence (by decide); revert it; decide
+example : ¬ LayoutOK (digestItems.map (fun it => if it = .lenBytes .rFromUID then .arr32 .rFromUID else it)) := by
+  intro h; have := h.1 (.arr32 .rFromUID) (by decide); revert this; decide
 -- c05_verify_iff / c05_guards_force: the guards are satisfiable
 example : verifyGuards exEntry exRec = true := by decide
 -- c05_verify_sealed / c05_chain / c05_verify_exact: derive succeeds on the example and its entry verifies
